@@ -10,7 +10,8 @@
    Part 3: the concrete instance. *)
 From Coq Require Import ZArith Bool List Lia ZifyBool String Ascii.
 From Coq Require Import Floats.SpecFloat.
-From SJ Require Import lib.Base lib.F64 lib.Strconv model.Json model.Ast model.ExecLib model.Leaf.
+From SJ Require Import lib.Base lib.F64 lib.Strconv model.Json model.Ast model.ExecLib model.Leaf
+  model.GoTime model.DateTime extract.Instance proofs.F64Laws.
 
 Local Open Scope Z_scope.
 
@@ -187,8 +188,6 @@ Record NumLaws (L : ExecLib) : Prop := mkNumLaws {
   (* float64(int64) is exact, hence order-preserving, on [-2^53, 2^53] *)
   nl_ofZ_exact : forall a b, Z.abs a <= two53 -> Z.abs b <= two53 ->
       fcmp (xl_of_Z L a) (xl_of_Z L b) = Some (a ?= b);
-  (* float64(int64) never yields NaN *)
-  nl_ofZ_notnan : forall z, f_is_nan (xl_of_Z L z) = false;
   (* a text that ParseInt accepts is accepted by ParseFloat with the correctly
      rounded value of the same integer — except that "-0" is the float -0 *)
   nl_js_int_float : forall s z, js_int64 L s = Some z ->
@@ -211,9 +210,387 @@ Record NumLaws (L : ExecLib) : Prop := mkNumLaws {
 (* Laws of the datetime comparison oracle on a domain D of datetime values. *)
 Record DtLaws (L : ExecLib) (D : datetime -> Prop) : Prop := mkDtLaws {
   dl_antisym : forall u a b c,
-      xl_dt_compare L u a b = CmpOk c -> xl_dt_compare L u b a = CmpOk (- c);
+      xl_dt_compare L u a b = ExecLib.CmpOk c -> xl_dt_compare L u b a = ExecLib.CmpOk (- c);
   dl_trans : forall u a b c x y, D a -> D b -> D c ->
-      xl_dt_compare L u a b = CmpOk x -> xl_dt_compare L u b c = CmpOk y ->
+      xl_dt_compare L u a b = ExecLib.CmpOk x -> xl_dt_compare L u b c = ExecLib.CmpOk y ->
       x <= 0 -> y <= 0 ->
-      exists z, xl_dt_compare L u a c = CmpOk z /\ z <= 0 /\ (x < 0 \/ y < 0 -> z < 0)
+      exists z, xl_dt_compare L u a c = ExecLib.CmpOk z /\ z <= 0 /\ (x < 0 \/ y < 0 -> z < 0)
 }.
+
+(* ================================================================== *)
+(* Part 3.  The concrete instance                                       *)
+(* ================================================================== *)
+
+(* the instance used for witnesses: UTC context, no regexp, members in order *)
+Definition lib0 : ExecLib := mk_lib (ctx_fixed 0 0) (fun _ _ _ => false) members_in_order.
+
+(* ---- float64(int64) is exact on [-2^53, 2^53]: closed form of binary_round ---- *)
+(* value representation of a positive integer p by a canonical (m, e) *)
+Definition posrep (p m : positive) (e : Z) : Prop :=
+  4503599627370496 <= Zpos m < 9007199254740992 /\ -52 <= e <= 1 /\
+  Zpos m * 2 ^ (e + 52) = Zpos p * 4503599627370496.
+
+Lemma binary_round_small s p :
+  Zpos p < 9007199254740992 ->
+  exists m e, binary_round 53 1024 s p 0 = S754_finite s m e /\ posrep p m e.
+Proof.
+  intros Hp. pose proof (digits2_bounds p) as Hd.
+  set (d := Zpos (digits2_pos p)) in *.
+  assert (Hd1 : 1 <= d) by (subst d; lia).
+  assert (Hd53 : d <= 53).
+  { destruct (Z_le_gt_dec d 53) as [H|H]; [exact H|exfalso].
+    assert (2 ^ 53 <= 2 ^ (d - 1)) by (apply Z.pow_le_mono_r; lia).
+    change (2 ^ 53) with 9007199254740992 in H0. lia. }
+  unfold binary_round. fold d. rewrite Z.add_0_r.
+  assert (Ef : fexp 53 1024 d = d - 53) by (unfold fexp, emin; lia).
+  rewrite Ef. unfold shl_align.
+  destruct (d - 53 - 0) as [|k|k] eqn:Ek; try lia.
+  - (* d = 53 *)
+    assert (d = 53) by lia.
+    exists p, 0. rewrite binary_round_aux_canonical by (fold d; lia).
+    split; [reflexivity|]. unfold posrep. rewrite H in Hd.
+    change (2 ^ (53 - 1)) with 4503599627370496 in Hd. change (2 ^ 53) with 9007199254740992 in Hd.
+    change (2 ^ (0 + 52)) with 4503599627370496. lia.
+  - (* d < 53 *)
+    assert (Hk : Zpos k = 53 - d) by lia.
+    exists (shift_pos k p), (d - 53).
+    rewrite binary_round_aux_canonical.
+    + split; [reflexivity|]. unfold posrep. rewrite shift_pos_pow, Hk.
+      assert (E1 : 2 ^ (53 - d) * 2 ^ (d - 1) = 4503599627370496).
+      { rewrite <- Z.pow_add_r by lia. replace (53 - d + (d - 1)) with 52 by lia. reflexivity. }
+      assert (E2 : 2 ^ (53 - d) * 2 ^ d = 9007199254740992).
+      { rewrite <- Z.pow_add_r by lia. replace (53 - d + d) with 53 by lia. reflexivity. }
+      assert (0 < 2 ^ (53 - d)) by (apply Z.pow_pos_nonneg; lia).
+      replace (d - 53 + 52) with (d - 1) by lia.
+      repeat split; try lia; try nia.
+    + rewrite digits2_shift_pos. fold d. lia.
+    + lia.
+Qed.
+
+Lemma posrep_2p53 : posrep 9007199254740992 4503599627370496 1.
+Proof. unfold posrep. cbn. lia. Qed.
+
+Lemma posrep_compare p1 m1 e1 p2 m2 e2 :
+  posrep p1 m1 e1 -> posrep p2 m2 e2 ->
+  match e1 ?= e2 with Eq => (Zpos m1 ?= Zpos m2) | c => c end = (Zpos p1 ?= Zpos p2).
+Proof.
+  intros (Hm1 & He1 & Hv1) (Hm2 & He2 & Hv2).
+  assert (Hstrict : forall pa ma ea pb mb eb,
+             4503599627370496 <= Zpos ma < 9007199254740992 -> 4503599627370496 <= Zpos mb < 9007199254740992 ->
+             -52 <= ea -> ea < eb ->
+             Zpos ma * 2 ^ (ea + 52) = Zpos pa * 4503599627370496 ->
+             Zpos mb * 2 ^ (eb + 52) = Zpos pb * 4503599627370496 -> Zpos pa < Zpos pb).
+  { intros pa ma ea pb mb eb Ha Hb Hea Hlt Va Vb.
+    assert (Hsplit : 2 ^ (eb + 52) = 2 ^ (ea + 52) * 2 ^ (eb - ea)).
+    { rewrite <- Z.pow_add_r by lia. f_equal. lia. }
+    assert (Hge2 : 2 <= 2 ^ (eb - ea)).
+    { change 2 with (2 ^ 1) at 1. apply Z.pow_le_mono_r; lia. }
+    assert (Hpos : 0 < 2 ^ (ea + 52)) by (apply Z.pow_pos_nonneg; lia).
+    rewrite Hsplit in Vb. nia. }
+  destruct (Z.compare_spec e1 e2) as [E|E|E].
+  - subst e2. assert (Hpos : 0 < 2 ^ (e1 + 52)) by (apply Z.pow_pos_nonneg; lia).
+    rewrite (Zmult_compare_compat_r (Zpos m1) (Zpos m2) (2 ^ (e1 + 52))) by lia. rewrite Hv1, Hv2.
+    symmetry. apply Zmult_compare_compat_r. lia.
+  - symmetry. apply Z.compare_lt_iff. apply (Hstrict p1 m1 e1 p2 m2 e2 Hm1 Hm2 ltac:(lia) E Hv1 Hv2).
+  - symmetry. apply Z.compare_gt_iff. assert (Zpos p2 < Zpos p1) by apply (Hstrict p2 m2 e2 p1 m1 e1 Hm2 Hm1 ltac:(lia) E Hv2 Hv1). lia.
+Qed.
+
+(* every integer of magnitude <= 2^53 has its exact canonical representation *)
+Lemma f64_of_Z_pos p :
+  Zpos p <= 9007199254740992 -> exists m e, f64_of_Z (Zpos p) = S754_finite false m e /\ posrep p m e.
+Proof.
+  intros Hp. destruct (Z.eq_dec (Zpos p) 9007199254740992) as [E|E].
+  - injection E as ->. exists 4503599627370496%positive, 1. split; [vm_compute; reflexivity|apply posrep_2p53].
+  - apply (binary_round_small false p). lia.
+Qed.
+Lemma f64_of_Z_neg p :
+  Zpos p <= 9007199254740992 -> exists m e, f64_of_Z (Zneg p) = S754_finite true m e /\ posrep p m e.
+Proof.
+  intros Hp. destruct (Z.eq_dec (Zpos p) 9007199254740992) as [E|E].
+  - injection E as ->. exists 4503599627370496%positive, 1. split; [vm_compute; reflexivity|apply posrep_2p53].
+  - apply (binary_round_small true p). lia.
+Qed.
+
+Theorem f64_of_Z_exact a b :
+  Z.abs a <= two53 -> Z.abs b <= two53 -> fcmp (f64_of_Z a) (f64_of_Z b) = Some (a ?= b).
+Proof.
+  unfold two53. intros Ha Hb.
+  destruct a as [|pa|pa], b as [|pb|pb]; try reflexivity.
+  - destruct (f64_of_Z_pos pb ltac:(lia)) as (m & e & -> & _). reflexivity.
+  - destruct (f64_of_Z_neg pb ltac:(lia)) as (m & e & -> & _). reflexivity.
+  - destruct (f64_of_Z_pos pa ltac:(lia)) as (m & e & -> & _). reflexivity.
+  - destruct (f64_of_Z_pos pa ltac:(lia)) as (m1 & e1 & -> & R1).
+    destruct (f64_of_Z_pos pb ltac:(lia)) as (m2 & e2 & -> & R2).
+    rewrite fcmp_key by reflexivity. cbn [fkey lexc]. change (1 ?= 1) with Eq. cbv iota.
+    rewrite (posrep_compare _ _ _ _ _ _ R1 R2). reflexivity.
+  - destruct (f64_of_Z_pos pa ltac:(lia)) as (m1 & e1 & -> & R1).
+    destruct (f64_of_Z_neg pb ltac:(lia)) as (m2 & e2 & -> & R2). reflexivity.
+  - destruct (f64_of_Z_neg pa ltac:(lia)) as (m & e & -> & _). reflexivity.
+  - destruct (f64_of_Z_neg pa ltac:(lia)) as (m1 & e1 & -> & R1).
+    destruct (f64_of_Z_pos pb ltac:(lia)) as (m2 & e2 & -> & R2). reflexivity.
+  - destruct (f64_of_Z_neg pa ltac:(lia)) as (m1 & e1 & -> & R1).
+    destruct (f64_of_Z_neg pb ltac:(lia)) as (m2 & e2 & -> & R2).
+    rewrite fcmp_key by reflexivity. cbn [fkey lexc]. change (-1 ?= -1) with Eq. cbv iota.
+    rewrite Z.compare_opp.
+    pose proof (posrep_compare _ _ _ _ _ _ R2 R1) as H.
+    change (Z.neg pa ?= Z.neg pb) with (CompOpp (Zpos pa ?= Zpos pb)).
+    change (Z.neg m1 ?= Z.neg m2) with (CompOpp (Zpos m1 ?= Zpos m2)).
+    rewrite <- (Z.compare_antisym (Zpos pa) (Zpos pb)), <- (Z.compare_antisym (Zpos m1) (Zpos m2)).
+    rewrite H. reflexivity.
+Qed.
+
+(* ---- int64(float64) ---- *)
+Lemma f64_to_int64_range f : in_int64 (f64_to_int64 f) = true.
+Proof.
+  destruct f as [s|s| |s m e]; try reflexivity. cbn [f64_to_int64].
+  match goal with |- context [if in_int64 ?v then _ else _] => destruct (in_int64 v) eqn:E end;
+    [exact E|reflexivity].
+Qed.
+
+(* ---- ParseInt returns a value of the requested size ---- *)
+Lemma pu_loop_nonneg base base0 s : 0 < base ->
+  forall n us n' us', 0 <= n -> pu_loop base base0 s n us = Some (n', us') -> 0 <= n'.
+Proof.
+  intros Hb. induction s as [|c r IH]; intros n us n' us' Hn H; cbn [pu_loop] in H.
+  - injection H as <- _. exact Hn.
+  - destruct ((cz c =? 95) && base0); [eapply IH; eassumption|].
+    match type of H with (if ?d <? base then _ else _) = _ => set (dd := d) in * end.
+    assert (Hd : 0 <= dd).
+    { subst dd. destruct (Strconv.is_digit c) eqn:E1; [unfold Strconv.is_digit in E1; lia|].
+      destruct ((97 <=? lowerz c) && (lowerz c <=? 122)) eqn:E2; lia. }
+    destruct (dd <? base); [|discriminate H].
+    eapply IH; [|exact H]. nia.
+Qed.
+
+Lemma parse_uint_raw_nonneg s n : parse_uint_raw 10 s = Some n -> 0 <= n.
+Proof.
+  unfold parse_uint_raw. destruct s as [|c0 r0]; [discriminate|].
+  change (10 =? 0) with false. cbv iota beta. change ((2 <=? 10) && (10 <=? 36)) with true. cbv iota.
+  destruct (pu_loop 10 false (String c0 r0) 0 false) as [[n' us]|] eqn:E; [|discriminate].
+  intros H. assert (0 <= n') by (eapply pu_loop_nonneg; [| |exact E]; lia).
+  destruct (us && negb (underscore_ok (String c0 r0))); [discriminate H|]. injection H as <-. assumption.
+Qed.
+
+Lemma parse_int64_range s z : parse_int 10 64 s = Some z -> in_int64 z = true.
+Proof.
+  unfold parse_int. destruct s as [|c r]; [discriminate|].
+  destruct (parse_uint_raw 10 (if is_sign c then r else String c r)) as [un|] eqn:E; [|discriminate].
+  apply parse_uint_raw_nonneg in E.
+  change (2 ^ (64 - 1)) with 9223372036854775808.
+  unfold in_int64, min_int64, max_int64.
+  destruct (cz c =? 45).
+  - destruct (un <=? 9223372036854775808) eqn:E1; intros H; [|discriminate H]. injection H as <-. lia.
+  - destruct (un <? 9223372036854775808) eqn:E1; intros H; [|discriminate H]. injection H as <-. lia.
+Qed.
+
+(* ---- FormatInt / ParseInt(.,10,32) ---- *)
+Lemma parse_int32_neg_shape body :
+  parse_int 10 32 (String "-" body) =
+  match parse_uint_raw 10 body with
+  | None => None
+  | Some un => if un <=? 2147483648 then Some (- un) else None
+  end.
+Proof. reflexivity. Qed.
+
+Lemma parse_int32_pos_shape c r : is_sign c = false ->
+  parse_int 10 32 (String c r) =
+  match parse_uint_raw 10 (String c r) with
+  | None => None
+  | Some un => if un <? 2147483648 then Some un else None
+  end.
+Proof.
+  intros Hs. unfold parse_int. rewrite Hs.
+  unfold is_sign in Hs. apply orb_false_iff in Hs. destruct Hs as [_ Hs].
+  rewrite Hs. reflexivity.
+Qed.
+
+Theorem parse_int32_format_int z : in_int32 z = true -> parse_int 10 32 (format_int z) = Some z.
+Proof.
+  intros Hz. unfold in_int32, min_int32, max_int32 in Hz.
+  apply andb_true_iff in Hz. destruct Hz as [Hlo Hhi].
+  apply Z.leb_le in Hlo. apply Z.leb_le in Hhi.
+  unfold format_int. destruct (z <? 0) eqn:Hneg.
+  - apply Z.ltb_lt in Hneg.
+    destruct (dec_digits_list_spec (- z) ltac:(lia)) as (Hne & Hf & Hv).
+    rewrite parse_int32_neg_shape. unfold format_nat.
+    rewrite (parse_uint_digits _ Hne Hf), Hv.
+    replace (- z <=? 2147483648) with true by (symmetry; apply Z.leb_le; lia).
+    rewrite Z.opp_involutive. reflexivity.
+  - apply Z.ltb_ge in Hneg.
+    destruct (dec_digits_list_spec z Hneg) as (Hne & Hf & Hv).
+    unfold format_nat.
+    pose proof (parse_uint_digits _ Hne Hf) as Hp.
+    destruct (dec_digits_list z) as [|d l] eqn:Hl; [congruence|].
+    assert (Hd : is_dig d) by (inversion Hf; assumption).
+    unfold str_of_digits in *. cbn [map str_of_list] in *.
+    rewrite (parse_int32_pos_shape _ _ (Strconv.digit_char_not_sign d Hd)), Hp, Hv.
+    replace (z <? 2147483648) with true by (symmetry; apply Z.ltb_lt; lia).
+    reflexivity.
+Qed.
+
+(* ---- what remains trusted about lib/Strconv.v ----
+   ONE fact about the executable strconv model is not proved: Go's shortest
+   float formatting round-trips,
+       ParseFloat(FormatFloat(f,'f',-1,64), 64) = f   for finite f.
+   It is an explicit hypothesis of [numlaws_concrete] (a Prop, not an axiom),
+   validated by the 104,865 test vectors that compare lib/Strconv.v with Go and
+   by the sweep [st_roundtrip_sweep] below.  Everything else is proved; in
+   particular the agreement of ParseInt and ParseFloat on integer texts is
+   [F64Laws.parse_int_parse_float]. *)
+Record StrconvTrusted : Prop := mkStrconvTrusted {
+  st_parse_format_float : forall f, valid_binary 53 1024 f = true -> f_finite f = true ->
+      parse_float (format_float_f f) = Some (f, false)
+}.
+
+Theorem numlaws_concrete ctx re members :
+  StrconvTrusted -> NumLaws (mk_lib ctx re members).
+Proof.
+  intros ST. split; cbn [mk_lib xl_of_Z xl_to_int64 xl_parse_int xl_parse_float xl_format_int xl_format_float].
+  - reflexivity.
+  - exact f64_of_Z_exact.
+  - unfold js_int64, js_float64. cbn [mk_lib xl_parse_int xl_parse_float xl_of_Z]. exact parse_int_parse_float.
+  - exact parse_int64_range.
+  - exact f64_to_int64_range.
+  - exact parse_int_format_int.
+  - exact parse_int32_format_int.
+  - exact (st_parse_format_float ST).
+Qed.
+
+(* the seven proved fields, individually (no hypothesis) *)
+Theorem numlaws_concrete_proved ctx re members :
+  let L := mk_lib ctx re members in
+  xl_of_Z L 0 = S754_zero false /\
+  (forall a b, Z.abs a <= two53 -> Z.abs b <= two53 -> fcmp (xl_of_Z L a) (xl_of_Z L b) = Some (a ?= b)) /\
+  (forall s z, js_int64 L s = Some z ->
+       js_float64 L s = Some (xl_of_Z L z, false) \/ (z = 0 /\ js_float64 L s = Some (S754_zero true, false))) /\
+  (forall s z, xl_parse_int L 10 64 s = Some z -> in_int64 z = true) /\
+  (forall f, in_int64 (xl_to_int64 L f) = true) /\
+  (forall z, in_int64 z = true -> xl_parse_int L 10 64 (xl_format_int L z) = Some z) /\
+  (forall z, in_int32 z = true -> xl_parse_int L 10 32 (xl_format_int L z) = Some z).
+Proof.
+  cbv zeta. unfold js_int64, js_float64. cbn [mk_lib xl_of_Z xl_to_int64 xl_parse_int xl_parse_float xl_format_int].
+  split; [reflexivity|]. split; [exact f64_of_Z_exact|]. split; [exact parse_int_parse_float|].
+  repeat split.
+  - exact parse_int64_range.
+  - exact f64_to_int64_range.
+  - exact parse_int_format_int.
+  - exact parse_int32_format_int.
+Qed.
+
+(* ---- tests (vm_compute sweeps; these are TESTS): the proved integer/float
+   agreement re-checked on boundary texts, and the trusted round trip ---- *)
+Definition sf_eqb (a b : f64) : bool :=
+  match a, b with
+  | S754_zero s, S754_zero t => Bool.eqb s t
+  | S754_infinity s, S754_infinity t => Bool.eqb s t
+  | S754_nan, S754_nan => true
+  | S754_finite s m e, S754_finite t n g => Bool.eqb s t && Pos.eqb m n && Z.eqb e g
+  | _, _ => false
+  end.
+
+Definition pf_is (s : string) (f : f64) : bool :=
+  match parse_float s with Some (g, false) => sf_eqb g f | _ => false end.
+
+Definition st_int_float_ok (s : string) : bool :=
+  match parse_int 10 64 s with
+  | Some z => pf_is s (f64_of_Z z) || ((z =? 0) && pf_is s (S754_zero true))
+  | None => true
+  end.
+
+Definition sweep_ints : list Z :=
+  flat_map (fun z => [z; - z; z + 1; z - 1; - z - 1; 1 - z])
+    [0; 1; 7; 10; 99; 1000; 123456789; 4294967296; 4503599627370496; 9007199254740992;
+     9007199254740994; 18014398509481984; 18014398509481985; 18014398509481987;
+     36028797018963968; 36028797018963972; 36028797018963974; 72057594037927936;
+     1152921504606846976; 1152921504606847105; 4611686018427387904; 4611686018427388417;
+     9223372036854775296; 9223372036854775807; 9223372036854775806; 9223372036854774784;
+     1000000000000000000; 999999999999999999; 123456789012345678; 9007199254740993].
+
+Definition sweep_int_texts : list string :=
+  map format_int sweep_ints ++
+  ["-0"; "+0"; "00"; "-000"; "+5"; "007"; "-007"; "+9223372036854775807"; "-9223372036854775808";
+   "9223372036854775808"; "1_0"; ""; "-"; "1e3"; "0x10"; "12a"]%string.
+
+Example st_int_float_sweep : forallb st_int_float_ok sweep_int_texts = true.
+Proof. vm_compute. reflexivity. Qed.
+
+Definition rt_ok (f : f64) : bool :=
+  valid_f64 f && match f with S754_zero _ | S754_finite _ _ _ => pf_is (format_float_f f) f | _ => true end.
+
+Definition sweep_floats : list f64 :=
+  flat_map (fun be =>
+    flat_map (fun frac =>
+      let bits := be * 4503599627370496 + frac in
+      [f64_of_bits bits; f64_of_bits (bits + 9223372036854775808)])
+      [0; 1; 2; 4503599627370495; 4503599627370494; 2251799813685248; 1234567890123; 3002399751580331])
+    [0; 1; 2; 3; 52; 53; 54; 100; 500; 900; 1000; 1022; 1023; 1024; 1025; 1075; 1076; 1077;
+     1100; 1200; 1500; 1800; 2000; 2044; 2045; 2046].
+
+Example st_roundtrip_sweep : List.length sweep_floats = 416%nat /\ forallb rt_ok sweep_floats = true.
+Proof. vm_compute. split; reflexivity. Qed.
+
+(* ---- NumLaws is satisfiable outright (no trusted hypothesis): an artificial
+   library whose ParseFloat/FormatFloat are made consistent by construction.
+   It shows that the theorems stated under NumLaws are not vacuous. ---- *)
+Definition ff1 (f : f64) : string := String "b" (format_nat (f64_to_bits f)).
+Definition pf1 (s : string) : option (f64 * bool) :=
+  match parse_int 10 64 s with
+  | Some z => Some (f64_of_Z z, false)
+  | None => match s with
+            | String "b" r => match parse_uint_raw 10 r with
+                              | Some n => Some (f64_of_bits n, false)
+                              | None => None
+                              end
+            | _ => Strconv.parse_float s
+            end
+  end.
+
+Definition lib1 : ExecLib :=
+  mkExecLib pf1 parse_int ff1 format_int f64_of_Z f64_to_int64 f64_mod f64_floor f64_ceil
+            f64_trunc f64_round f64_pow10 (fun _ _ _ => false) (fun _ _ => None)
+            (fun _ _ _ => ExecLib.CastInvalid) (fun _ _ _ => ExecLib.CmpIncomparable) (fun _ => EmptyString)
+            (map snd).
+
+Lemma f64_to_bits_nonneg f : valid_binary 53 1024 f = true -> 0 <= f64_to_bits f.
+Proof.
+  destruct f as [s|s| |s m e]; cbn [f64_to_bits]; intros Hv;
+    try (destruct s; lia); try (unfold f64_nan_bits; lia).
+  unfold valid_binary, bounded, canonical_mantissa, fexp, emin in Hv.
+  apply andb_true_iff in Hv. destruct Hv as [Hc _]. apply Zeq_bool_eq in Hc.
+  destruct (4503599627370496 <=? Zpos m) eqn:E; destruct s; lia.
+Qed.
+
+Lemma parse_uint_format_nat n : 0 <= n -> parse_uint_raw 10 (format_nat n) = Some n.
+Proof.
+  intros Hn. destruct (dec_digits_list_spec n Hn) as (Hne & Hf & Hv).
+  unfold format_nat. rewrite (parse_uint_digits _ Hne Hf), Hv. reflexivity.
+Qed.
+
+Lemma parse_int_b r : parse_int 10 64 (String "b" r) = None.
+Proof. reflexivity. Qed.
+
+Theorem numlaws_satisfiable : exists L, NumLaws L.
+Proof.
+  exists lib1. split; cbn [lib1 xl_of_Z xl_to_int64 xl_parse_int xl_parse_float xl_format_int xl_format_float].
+  - reflexivity.
+  - exact f64_of_Z_exact.
+  - intros s z H. unfold js_int64, js_float64 in *. cbn [lib1 xl_parse_int xl_parse_float xl_of_Z] in *.
+    left. unfold pf1. rewrite H. reflexivity.
+  - exact parse_int64_range.
+  - exact f64_to_int64_range.
+  - exact parse_int_format_int.
+  - exact parse_int32_format_int.
+  - intros f Hv Hf. unfold pf1, ff1. rewrite parse_int_b.
+    rewrite parse_uint_format_nat by (apply f64_to_bits_nonneg; exact Hv).
+    rewrite f64_of_bits_to_bits by exact Hv. reflexivity.
+Qed.
+
+Print Assumptions fcmp_key.
+Print Assumptions fcmp_le_trans.
+Print Assumptions f64_of_Z_exact.
+Print Assumptions f64_to_int64_range.
+Print Assumptions parse_int64_range.
+Print Assumptions parse_int32_format_int.
+Print Assumptions numlaws_concrete.
+Print Assumptions numlaws_concrete_proved.
+Print Assumptions numlaws_satisfiable.
